@@ -67,7 +67,7 @@ func itoa(i int) string { return strconv.Itoa(i) }
 
 // ---------------------------------------------------------------- documents for the RFC 6902 harnesses
 
-const nDocShapes = 21
+const nDocShapes = 22
 
 // docShape builds document shape i; leaves are symbolic.
 func docShape(i int, pfx string) *JV {
@@ -119,6 +119,10 @@ func docShape(i int, pfx string) *JV {
 		o := jObj().with("a~b", jObj().with("x", n(0))).with("c/d", jArr(n(1))).with("k", n(2))
 		o.KSp = [][]byte{[]byte("a" + "\\u007e" + "b"), []byte("c" + "\\/" + "d"), nil}
 		return o
+	case 21:
+		// a member name spelled twice (valid JSON; the last value is the member's value). Outside C01's stated
+		// domain: only the error-class clauses (C08) and panic freedom (C04) are asserted on it.
+		return jObj().with("a", n(0)).with("b", n(1)).with("a", n(2))
 	case 18:
 		// member names made of the two RFC 6901 metacharacters: every decoding order slip lands on a sibling
 		return jObj().with("~1", n(0)).with("/", n(1)).with("~0", n(2)).with("~", jObj().with("/0", n(3)).with("~1", n(4)))
